@@ -1277,9 +1277,8 @@ class tensor:
 
         # Np transpose does error checking on order, acts as permutation
 
-        return ttb.tensor(
-            to_memory_order(np.transpose(self.data, order), self.order), copy=False
-        )
+        # Copy: an order that keeps the memory layout would otherwise return a view
+        return ttb.tensor(np.transpose(self.data, order), copy=True)
 
     def reshape(self, shape: Shape) -> tensor:
         """
